@@ -29,6 +29,26 @@ if [ "$TIER" = replay ]; then
   timeout -s QUIT "$LIMIT" "bin/$pkg" -replay "${3:?replay file}"
   exit $?
 fi
+# Additional sanitizer pass (thorough tier, checks with an ASAN marker file): the same check built with
+# -asan runs its quick-size workload first; its evidence is not written, its verdict counts.
+arc=0
+if [ "$TIER" = thorough ] && [ -f "checks/$pkg/ASAN" ]; then
+  if ! go build -asan -tags verif -o "bin/$pkg.asan" "./checks/$pkg" 2> "bin/$pkg.asan.build.log"; then
+    cat "bin/$pkg.asan.build.log"; echo "INCONCLUSIVE property=$ID asan build failed"; exit 2
+  fi
+  ALOG="$VERIF_SCRATCH/asan.log"
+  VERIF_NO_EVIDENCE=1 ASAN_OPTIONS="abort_on_error=1:halt_on_error=1:detect_leaks=0" timeout -s QUIT "$LIMIT" "bin/$pkg.asan" -tier quick -seed "$VERIF_SEED" > "$ALOG" 2>&1
+  arc=$?
+  grep -E '^(VIOLATION|KNOWN-FINDING:|INCONCLUSIVE|  signature=)' "$ALOG" | sed 's/^SUMMARY/ASAN-SUMMARY/' || true
+  if grep -q 'ERROR: AddressSanitizer' "$ALOG"; then
+    mkdir -p "replay/$ID"; cp "$ALOG" "replay/$ID/asan-report-s$VERIF_SEED.log"
+    echo "VIOLATION property=$ID replay=$PWD/replay/$ID/asan-report-s$VERIF_SEED.log"
+    exit 1
+  fi
+  [ $arc -eq 1 ] && exit 1
+  if [ $arc -ne 0 ] && [ $arc -ne 2 ]; then tail -n 40 "$ALOG"; echo "INCONCLUSIVE property=$ID asan pass died with status $arc"; exit 2; fi
+  export VERIF_SANITIZER_PASSES="asan build (go build -asan), quick-size workload, exit $arc: $(grep '^SUMMARY' "$ALOG" | tail -1)"
+fi
 LOG="$VERIF_SCRATCH/out.log"
 GORACE="halt_on_error=0 log_path=$VERIF_SCRATCH/race" timeout -s QUIT "$LIMIT" "bin/$pkg" -tier "$TIER" -seed "$VERIF_SEED" > "$LOG" 2>&1
 rc=$?
@@ -39,4 +59,5 @@ if [ $rc -ne 0 ] && [ $rc -ne 1 ] && [ $rc -ne 2 ]; then
   exit 2
 fi
 if [ $rc -eq 2 ] && ! grep -q '^INCONCLUSIVE' "$LOG"; then tail -n 40 "$LOG"; fi
+if [ $rc -eq 0 ] && [ $arc -eq 2 ]; then echo "INCONCLUSIVE property=$ID asan pass was inconclusive"; exit 2; fi
 exit $rc
